@@ -225,7 +225,8 @@ def get_folding_profile_section(
         for (ph, dg) in profile:
             ph = round(Decimal(ph), 3)
             if ph >= window[0] and ph <= window[1]:
-                remainder = ph % delta
+                # Decimal's remainder takes the sign of ph
+                remainder = (ph % delta + delta) % delta
                 if remainder < 0.05 or delta - remainder < 0.05:
                     str_ += "{0:>6.2f}{1:>10.2f}\n".format(ph, dg)
         str_ += "\n"
